@@ -229,30 +229,42 @@ def _parameter_loops(ck: Check, prog: Program) -> None:
             ck.finding('EXCL-AGREE', f.qualname, f'parameter walk left early: {norm(x.ast)[:30]}', f.module.rel, x.line,
                        f'`{norm(x.ast)[:50]}` leaves the loop over the parameters: the parameters after an excluded one are never looked at, so they '
                        f'are missing from the documents (or from the bound signature) although the other side knows them')
-    # docstring documenter: each exclusion reason alone is sufficient
+    # docstring documenter: a parameter is listed iff its name is not in `exclude` AND the predicate does not select it (so each
+    # exclusion reason alone is sufficient) — read from the conditions under which an entry is produced, loop or comprehension alike
+    from ..flow import _cond_guards
     dm = prog.cls('pjrpc.server.specs.extractors.docstring.DocstringSchemaExtractor').methods['extract_params_schema']
     cfg = CFG(dm, prog)
-    conts = [n for n in cfg.stmt_nodes() if isinstance(n.ast, ast.Continue)]
-    in_t = pred_t = False
-    for c in cfg.nodes:
-        if c.kind != 'cond':
-            continue
-        is_in = isinstance(c.ast, ast.Compare) and isinstance(c.ast.ops[0], ast.In) and 'exclude' in norm(c.ast.comparators[0])
-        is_pred = isinstance(c.ast, ast.Call) and dotted(c.ast.func) == 'self._exclude_param'
-        if not (is_in or is_pred):
-            continue
-        for e in cfg.succ[c.id]:
-            if e.label == 'T' and (e.dst in conts or any(k.id in cfg.reachable(e.dst, edge_ok=lambda ed: ed.src.kind != 'cond') for k in conts) or e.dst in conts):
-                if is_in:
-                    in_t = True
-                else:
-                    pred_t = True
-    ok_d = in_t and pred_t
-    ck.ob('EXCL-AGREE', 'docstring documenter: a name listed in exclude is skipped, and so is a name the predicate selects (each alone)', ok_d)
+    keep_conds = None
+    for n in cfg.stmt_nodes():
+        a_ = n.ast
+        if isinstance(a_, ast.Assign) and isinstance(a_.targets[0], ast.Subscript) and norm(a_.targets[0].slice).endswith('.arg_name'):
+            keep_conds = [(g.src.ast, g.label == 'T') for g in guard_edges(cfg, n)
+                          if any(h_.id in cfg.reachable(g.src) for h_ in cfg.nodes if h_.kind == 'next')]
+    if keep_conds is None:
+        for x in walk_own(dm.node):
+            if isinstance(x, ast.DictComp) and norm(x.key).endswith('.arg_name'):
+                keep_conds = []
+                for c_ in x.generators[0].ifs:
+                    keep_conds += _cond_guards(c_, True)
+    if keep_conds is None:
+        raise AnalysisError(f'{dm.qualname}: documented-parameter entries not found')
+    in_ok = pred_ok = False
+    for c_, pol in keep_conds:
+        inner, p_ = c_, pol
+        while isinstance(inner, ast.UnaryOp) and isinstance(inner.op, ast.Not):
+            inner, p_ = inner.operand, not p_
+        if isinstance(inner, ast.Compare) and len(inner.ops) == 1 and isinstance(inner.ops[0], (ast.In, ast.NotIn)) and \
+                norm(inner.left).endswith('.arg_name') and 'exclude' in norm(inner.comparators[0]):
+            if (isinstance(inner.ops[0], ast.NotIn)) == p_:
+                in_ok = True
+        elif isinstance(inner, ast.Call) and dotted(inner.func) == 'self._exclude_param' and not p_:
+            pred_ok = True
+    ok_d = in_ok and pred_ok
+    ck.ob('EXCL-AGREE', 'docstring documenter: a parameter is listed iff its name is not in exclude and the predicate does not select it', ok_d)
     if not ok_d:
-        ck.finding('EXCL-AGREE', dm.qualname, 'docstring exclusion needs both reasons', dm.module.rel, dm.node.lineno,
-                   f'a documented parameter must be skipped when its name is in `exclude` (skipped directly: {in_t}) and when the exclusion predicate '
-                   f'selects it (skipped directly: {pred_t}); with `and` the context parameter is published although the binder refuses it')
+        ck.finding('EXCL-AGREE', dm.qualname, 'docstring exclusion formula', dm.module.rel, dm.node.lineno,
+                   f'a documented parameter must be skipped when its name is in `exclude` (required on every listing path: {in_ok}) and when the '
+                   f'exclusion predicate selects it (required: {pred_ok}); otherwise the context parameter is published although the binder refuses it')
     # OpenAPI: the three extractor loops agree on precedence
     oa = prog.cls(OPENAPI)
     prec = {}
